@@ -34,6 +34,7 @@ func isSentinelLoad(v ssa.Value, name string) bool {
 }
 
 func runC05(p *an.Prog, r *an.Run, tier string) {
+	checkSurfaceClosed(p, r)
 	// the nonce is remembered under the identity string as received: the signature must bind exactly that spelling and
 	// exactly that nonce, or one signed request is honoured once per spelling / per neighbouring nonce (shared with C04)
 	checkHashCovers(p, r)
